@@ -183,8 +183,11 @@ Definition view_xfer (body : bytes) : option (N * N * bytes) :=
   | None => None
   end.
 
+(** An empty payload gets no layer at all in scapy ([do_dissect_payload]
+    is skipped), whatever the type. *)
 Definition view (m : msg) : content :=
-  if m_type m =? 1 then CPadding (m_body m)
+  if is_nil (m_body m) then COther
+  else if m_type m =? 1 then CPadding (m_body m)
   else if m_type m =? 2 then CBundle (m_body m)
   else if m_type m =? 3 then
     match view_xfer (m_body m) with Some (x, i, d) => CSeg x i d | None => COther end
@@ -381,11 +384,7 @@ Definition recv_seg (conv : N) (st : rx) (is_end : bool) (x idx : N) (d : bytes)
 (** One message; the boolean says an exception left [_recv_msg]. *)
 Definition recv_msg (conv : N) (st : rx) (m : msg) : rx * bool :=
   match view m with
-  | CBundle d =>
-      match d with
-      | [] => (st, false)      (* empty payload: no BundlePdu layer is dissected, "unhandled" *)
-      | _ :: _ => (add_rx st d, false)
-      end
+  | CBundle d => (add_rx st d, false)      (* an empty BundlePdu never gets here: see [view] *)
   | CSeg x i d => recv_seg conv st false x i d
   | CEnd x i d => recv_seg conv st true x i d
   | _ => (st, false)
@@ -413,13 +412,15 @@ Definition recv_frame (conv : N) (st : rx) (bs : bytes) : rx := fst (recv_frame_
 
 Definition queued (st : rx) : list bytes := map snd (r_queue st).
 
-(** ** Renderings for the correspondence files (printable values only) *)
+(** ** Renderings for the correspondence files (printable values only;
+    options are rendered as lists of length 0 or 1) *)
+
+Definition o_opt {A} (o : option A) : list A := match o with Some a => [a] | None => [] end.
 
 Definition o_hint (h : hint) : N * bytes := (h_type h, h_data h).
+Definition i_hint (p : N * bytes) : hint := mkHint (fst p) (snd p).
 Definition o_msg (m : msg) : N * N * list (N * bytes) * bytes :=
   (m_type m, m_flags m, map o_hint (m_hints m), m_body m).
-Definition i_msg (t : N * N * list (N * bytes) * bytes) : msg :=
-  let '(ty, fl, hs, body) := t in mkMsg ty fl (map (fun p => mkHint (fst p) (snd p)) hs) body.
 
 Definition o_content (c : content) : N * N * N * bytes :=
   match c with
@@ -431,55 +432,78 @@ Definition o_content (c : content) : N * N * N * bytes :=
   | COther => (0, 0, 0, [])
   end.
 
-(** Codec case: a frame given as message tuples plus padding.  Result:
-    well-formedness, the encoding, each message's declared length, and the
-    strict decoding of the encoding with the payload views. *)
-Definition run_codec (c : list (N * N * list (N * bytes) * bytes) * bytes) :=
-  let f := mkFrame (map i_msg (fst c)) (snd c) in
+(** A message as the harness describes it: (kind, explicit flags or none,
+    hints, xfer, idx, data); built with the builders above. *)
+Definition b_msg (c : N * list N * list (N * bytes) * N * N * bytes) : msg :=
+  let '(kind, fl, hs, x, i, d) := c in
+  let hs' := map i_hint hs in
+  let m := if kind =? 3 then mk_seg hs' false x i d
+           else if kind =? 4 then mk_seg hs' true x i d
+           else if kind =? 5 then mk_msg 5 hs' (be 4 x ++ d)
+           else mk_msg kind hs' d in
+  match fl with
+  | f :: _ => mkMsg (m_type m) f (m_hints m) (m_body m)
+  | [] => m
+  end.
+
+Definition o_frame (g : frame) :=
+  (map o_msg (f_msgs g), f_pad g, map (fun m => o_content (view m)) (f_msgs g)).
+
+(** Codec case: messages plus trailing padding.  Result: well-formedness,
+    the encoding, each message's length field, and the strict decoding of
+    the encoding with the payload views. *)
+Definition run_codec (c : list (N * list N * list (N * bytes) * N * N * bytes) * bytes) :=
+  let f := mkFrame (map b_msg (fst c)) (snd c) in
   let bs := encode_frame f in
-  (wf_frameb f, bs, map (fun m => len_field m) (f_msgs f),
-   match decode_frame bs with
-   | Some g => Some (map o_msg (f_msgs g), f_pad g, map (fun m => o_content (view m)) (f_msgs g))
-   | None => None
-   end).
+  (wf_frameb f, bs, map len_field (f_msgs f), map o_frame (o_opt (decode_frame bs))).
 
 (** Decode case: arbitrary octets.  Result: strict decoding and its re-encoding. *)
 Definition run_decode (bs : bytes) :=
-  match decode_frame bs with
-  | Some g => Some (map o_msg (f_msgs g), f_pad g, encode_frame g)
-  | None => None
-  end.
+  map (fun g => (o_frame g, encode_frame g)) (o_opt (decode_frame bs)).
 
 (** Send case: (mtu or none, xfer id, seed, length). *)
-Definition run_send (c : option N * N * N * nat) : list bytes :=
-  let '(mtu, xid, seed, len) := c in send_transfer mtu xid (mkdata seed len).
+Definition run_send (c : list N * N * N * N) : list bytes :=
+  let '(mtu, xid, seed, len) := c in
+  send_transfer (hd_error mtu) xid (mkdata seed (N.to_nat len)).
+
+(** Same for large bundles: per frame (length, first 24 octets, digest). *)
+Definition digest (bs : bytes) : N :=
+  fold_left (fun a b => (a * 16777619 + b) mod 4294967296) bs 2166136261.
+
+Definition run_send_big (c : list N * N * N * N) : list (nat * bytes * N) :=
+  map (fun f => (length f, firstn 24 f, digest f)) (run_send c).
 
 Definition o_xfer (e : key * xfer) :=
-  (fst e, x_end (snd e), map fst (x_segs (snd e))).
+  (fst e, o_opt (x_end (snd e)), map fst (x_segs (snd e))).
 
 Definition o_rx (st : rx) :=
   (map o_xfer (r_prog st), r_queue st, r_signals st, r_timers st).
 
-Fixpoint recv_trace (conv : N) (st : rx) (frames : list bytes) : list (nat * bool) * rx :=
+Fixpoint recv_trace (st : rx) (frames : list (N * bytes)) : list (nat * bool) * rx :=
   match frames with
   | [] => ([], st)
-  | f :: t =>
-      let '(st', raised) := recv_frame_r conv st f in
-      let '(tr, fin) := recv_trace conv st' t in
+  | (cv, f) :: t =>
+      let '(st', raised) := recv_frame_r cv st f in
+      let '(tr, fin) := recv_trace st' t in
       ((length (r_signals st'), raised) :: tr, fin)
   end.
 
-(** Receive case: frames as octets, in arrival order.  Result: number of
-    signals so far and the raised flag after each frame, then the final state. *)
-Definition run_recv (c : N * list bytes) :=
-  let '(tr, fin) := recv_trace (fst c) rx_init (snd c) in (tr, o_rx fin).
+(** Receive case: (conversation, frame octets) in arrival order.  Result:
+    number of signals so far and the raised flag after each frame, then the
+    final state. *)
+Definition run_recv (c : list (N * bytes)) :=
+  let '(tr, fin) := recv_trace rx_init c in (tr, o_rx fin).
 
 (** Receive case for generated transfers: (mtu, xid, seed, len, arrival order
-    as positions into the list of frames of [send_transfer]). *)
-Definition run_xfer (c : N * N * N * nat * list nat) :=
+    as positions into the list of frames of [send_transfer]).  Result: signal
+    count after each frame, queued data (as digest and length), signals,
+    transfers still in progress, timers, and "the queued octets are the bundle". *)
+Definition run_xfer (c : N * N * N * N * list nat) :=
   let '(mtu, xid, seed, len, order) := c in
-  let frames := send_transfer (Some mtu) xid (mkdata seed len) in
-  let arrival := map (fun i => nth i frames []) order in
-  let '(tr, fin) := recv_trace 1 rx_init arrival in
-  (map fst tr, queued fin, r_signals fin, map o_xfer (r_prog fin), r_timers fin,
-   bytes_eqb (concat (queued fin)) (mkdata seed len)).
+  let data := mkdata seed (N.to_nat len) in
+  let frames := send_transfer (Some mtu) xid data in
+  let arrival := map (fun i => (1, nth i frames [])) order in
+  let '(tr, fin) := recv_trace rx_init arrival in
+  (map fst tr, map (fun d => (length d, digest d)) (queued fin), r_signals fin,
+   map o_xfer (r_prog fin), r_timers fin,
+   match queued fin with [d] => bytes_eqb d data | _ => false end).
